@@ -22,6 +22,7 @@ import os
 from fractions import Fraction
 
 from .. import translate
+from . import normalize
 
 REL = "fairlearn/adversarial/_adversarial_mitigation.py"
 REL_PRE = "fairlearn/adversarial/_preprocessor.py"
@@ -653,7 +654,7 @@ def lift_onehot_argmax(fn, tree):
 
 def lift_inverse(repo):
     with open(os.path.join(repo, REL_PRE)) as f:
-        tree = ast.parse(f.read())
+        tree = normalize.parse(f.read())
     cls = _find_class(tree, "FloatTransformer", REL_PRE)
     fn = _find_fn(cls, "inverse_transform", REL_PRE)
     arg = fn.args.args[1].arg
@@ -788,7 +789,7 @@ def _doc(s):
 @translate.lifter
 def adv_schedule(repo):
     with open(os.path.join(repo, REL)) as f:
-        tree = ast.parse(f.read())
+        tree = normalize.parse(f.read())
     cls = _find_class(tree, CLS, REL)
     r = lift_fit(_find_fn(cls, "fit", REL))
     npf = lift_partial_fit(_find_fn(cls, "partial_fit", REL))
